@@ -834,3 +834,19 @@ func (c *Ctx) EnteredOnlyWhenExcept(blk *ssa.BasicBlock, label string, skip func
 	}
 	return ok
 }
+
+// breakPreds: the predecessors through which the loop with header h (two
+// successors: body, done) is left other than by the header's own test.
+func breakPreds(h *ssa.BasicBlock) []*ssa.BasicBlock {
+	var out []*ssa.BasicBlock
+	if len(h.Succs) != 2 {
+		return nil
+	}
+	body, done := h.Succs[0], h.Succs[1]
+	for _, p := range done.Preds {
+		if p != h && (p == body || body.Dominates(p)) {
+			out = append(out, p)
+		}
+	}
+	return out
+}
